@@ -85,9 +85,10 @@ DSetCodes(o, Dx) ==
   \cup (IF \E a, b \in Reg : o.leq[a][b] # B2I(DLeq(Dx[a], Dx[b])) THEN {"leq"} ELSE {})
   \cup (IF \E a, b \in Reg : o.eq[a][b] # B2I(Dx[a] = Dx[b]) THEN {"equal"} ELSE {})
 
-(* --- known findings: {"engine":"map_runner","op":<event op or "">,"code":<code or "">} --- *)
+(* --- known findings: {"engine":"map_runner","fam":<"map"|"pset"|"dset"|"">,"op":<event op or "">,"code":<code or "">} --- *)
 SigMatches(sig, e, code) ==
   /\ sig.engine = "map_runner"
+  /\ (sig.fam = "" \/ sig.fam = Fam(e[1]))
   /\ (sig.op = "" \/ sig.op = e[1])
   /\ (sig.code = "" \/ sig.code = code)
 KnownFor(e, code) == {k \in DOMAIN KnownSigs : SigMatches(KnownSigs[k].sig, e, code)}
@@ -163,6 +164,12 @@ TSpec == TInit /\ [][TNext]_tvars
 
 Compact == [trace |-> Tr.id, step |-> l, alt |-> alt, verdict |-> verdict]
 
-(* THE contract *)
-Conform == verdict \in {"ok", "known", "qknown"}
+(* THE contract.  Every mismatch is printed as a FAIL record (the check reports each kind after re-running it
+   alone, where the limiter below cannot hide it).  In a bulk run with -continue TLC reconstructs an error trace
+   for every violating state, which costs tens of milliseconds each; MaxFlagged bounds, per worker, how many
+   violating states are handed to TLC as invariant violations (register 1 is initialised by the ASSUME). *)
+MaxFlagged == 25
+ASSUME TLCSet(1, 0)
+Good == verdict \in {"ok", "known", "qknown"}
+Conform == Good \/ (IF TLCGet(1) < MaxFlagged THEN ~TLCSet(1, TLCGet(1) + 1) ELSE TRUE)
 ============================================================================
